@@ -63,7 +63,7 @@ Definition index_based (x : pstr) : Prop :=
 Lemma v0d_field_closure_idx sh i f x : In x (v0d_field_closure sh i f) -> index_based x.
 Proof.
   unfold v0d_field_closure. intro H. apply in_app_or in H as [H|H].
-  - destruct (df_has_default f && negb (dskip_on (d_skip_defaults_if sh))); cbn in H; [|contradiction].
+  - destruct (df_has_default f && (negb (dskip_on (d_skip_defaults_if sh)) || is_catch (df_key f))); cbn in H; [|contradiction].
     destruct H as [<-|[]]. exists i. auto.
   - destruct (match df_key f with DKey _ | DPath _ => dskip_closure (df_skip f) | _ => false end); cbn in H; [|contradiction].
     destruct H as [<-|[]]. exists i. auto.
